@@ -290,7 +290,13 @@ def handle (line : String) : String :=
               | none => ""
             else ""
           | none => ""
-        let all := [d1, d2, sp, sp8].filter (· != "")
+        -- C11 through Detect: the charset attached to a text/plain result, judged on the examined header
+        let sp11 := match parseGoWalk goRes with
+          | some (_, gleaf) =>
+            let pre := ofString "text/plain; charset="
+            if hasPrefix gleaf pre then Spec.charsetSpec h (bhex (gleaf.drop pre.length)) else ""
+          | none => ""
+        let all := [d1, d2, sp, sp8, sp11].filter (· != "")
         if all.isEmpty then "OK" else String.intercalate " ; " all
       | _, _, _, _ => "BAD args"
     | ["jparse", q, hx] =>
